@@ -505,10 +505,12 @@ class DLC(utils.EventEmitter):
     def sink(self, sink: Callable[[bytes], None] | None) -> None:
         self._sink = sink
         # Dump queued packets to sink
-        if sink:
+        if sink and self._enqueued_rx_packets:
             for packet in self._enqueued_rx_packets:
                 sink(packet)  # pylint: disable=not-callable
             self._enqueued_rx_packets.clear()
+            # The receive window is free again
+            self.process_tx()
 
     def change_state(self, new_state: State) -> None:
         logger.debug(f'{self} state change -> {color(new_state.name, "magenta")}')
@@ -691,8 +693,12 @@ class DLC(utils.EventEmitter):
         self.change_state(DLC.State.CONNECTING)
 
     def rx_credits_needed(self) -> int:
-        if self.rx_credits <= self.rx_credits_threshold:
-            return self.rx_max_credits - self.rx_credits
+        # Frames held for a sink that is not attached yet still occupy the receive
+        # window: the peer gets no new credits for them until they are consumed (or
+        # the bounded receive queue would overflow and drop the oldest ones)
+        occupied = self.rx_credits + len(self._enqueued_rx_packets)
+        if occupied <= self.rx_credits_threshold:
+            return self.rx_max_credits - occupied
 
         return 0
 
